@@ -87,6 +87,7 @@ structure St where
   kfs : Std.HashMap String Nat := {}
   samples : Std.HashMap String (List String) := {}
   printed : Nat := 0
+  printedV : Nat := 0
 
 def outcomeClass (s : String) : String :=
   if s.startsWith "ok" then "ok"
@@ -150,12 +151,12 @@ partial def loop (prop : String) (h : IO.FS.Stream) (st : St) : IO St := do
           if c < 3 then IO.println s!"KF\t{id}\t{opStr}\tgo={goOut}"
           st := { st with kfs := st.kfs.insert id (c + 1) }
         | none =>
-          if st.printed < maxPrint then IO.println s!"VIOL\t{e.descr}\t{opStr}\tgo={goOut}\tmodel={m}"
-          st := { st with viol := st.viol + 1, printed := st.printed + 1 }
+          if st.printedV < maxPrint then IO.println s!"VIOL\t{e.descr}\t{opStr}\tgo={goOut}\tmodel={m}"
+          st := { st with viol := st.viol + 1, printedV := st.printedV + 1 }
     else
       if !holds then
-        if st.printed < maxPrint then IO.println s!"VIOL\t{e.descr}\t{opStr}\tgo={goOut}\tmodel={m}"
-        st := { st with viol := st.viol + 1, diff := st.diff + 1, printed := st.printed + 1 }
+        if st.printedV < maxPrint then IO.println s!"VIOL\t{e.descr}\t{opStr}\tgo={goOut}\tmodel={m}"
+        st := { st with viol := st.viol + 1, diff := st.diff + 1, printedV := st.printedV + 1 }
       else
         if st.printed < maxPrint then IO.println s!"DIFF\t{opStr}\tgo={goOut}\tmodel={m}"
         st := { st with diff := st.diff + 1, printed := st.printed + 1 }
